@@ -6,6 +6,7 @@ from concurrent.futures import ProcessPoolExecutor
 from harness import compat  # noqa: F401
 from harness.core import Ctx, Machinery, Violation
 
+NUMBER_CASES: list[dict] = []
 BATCH = 60
 
 
@@ -276,11 +277,47 @@ def _check_roles(cases: list[dict]) -> dict:
 	return {'failures': failures, 'machinery': machinery}
 
 
+def _check_numbers(cases: list[dict]) -> dict:
+	"""the kind of a numeric literal: spec = CPython's constant type (else machinery) = tranp's literal class"""
+	import rogw.tranp.syntax.node.definition as defs
+	from harness.tranp_env import Env, enter_scratch
+	from rogw.tranp.syntax.ast.entrypoints import Entrypoints
+	from rogw.tranp.syntax.ast.finder import ASTFinder
+	from rogw.tranp.syntax.ast.parser import SyntaxParser
+	enter_scratch('verif-c02-')
+	failures, machinery = [], []
+	for case in cases:
+		text = case['place'].replace('#', case['text'])
+		kinds = {type(n.value).__name__ for n in ast.walk(ast.parse(text)) if isinstance(n, ast.Constant) and isinstance(n.value, (int, float)) and not isinstance(n.value, bool)}
+		n_literals = case['place'].count('#')
+		py = [n for n in ast.walk(ast.parse(text)) if isinstance(n, ast.Constant) and type(n.value) in (int, float) and ast.get_source_segment(text, n) == case['text']]
+		if len(py) != n_literals or {type(n.value).__name__ for n in py} != {case['kind']}:
+			machinery.append(f'spec and CPython disagree on the kind of {case["text"]!r} in {text!r}')
+			continue
+		try:
+			env = Env(sources={'vm_num': text})
+			entry = env.get(Entrypoints).load('vm_num')
+			nodes = entry._Node__nodes
+			got = []
+			for p in ASTFinder().full_pathfy(env.get(SyntaxParser)('vm_num')):
+				node = nodes.by(p)
+				if isinstance(node, defs.Number) and node.tokens == case['text']:
+					got.append('int' if isinstance(node, defs.Integer) else 'float' if isinstance(node, defs.Float) else type(node).__name__)
+		except Exception as e:
+			failures.append({'clause': 'accepted', 'detail': f'number {case["text"]}: {type(e).__name__}: {str(e)[:120]}', 'text': text, 'kinds': 'number'})
+			continue
+		if got != [case['kind']] * n_literals:
+			failures.append({'clause': 'NumberKind', 'detail': f'`{case["text"]}` in {text!r} is {"an" if case["kind"] == "int" else "a"} {case["kind"]} for Python; tranp has {got or "no number node"}', 'text': text, 'kinds': f'number:{case["kind"]}'})
+	return {'failures': failures, 'machinery': machinery}
+
+
 def load_roles() -> list[dict]:
 	import json
 	from harness import tlc
 	res = tlc.run('PyRoles', 'PyRoles.cfg', workers=1, timeout=600)
 	cases = [json.loads(line) for line in res.lines('ROLE ')]
+	global NUMBER_CASES
+	NUMBER_CASES = [json.loads(line) for line in res.lines('NUMBER ')]
 	if res.rc != 0 or len(cases) < 150:
 		raise Machinery(f'PyRoles: a model-level fact fails or evaluation error ({len(cases)} cases): {res.out[-600:]}')
 	return cases
@@ -312,6 +349,9 @@ def run_statements(ctx: Ctx) -> tuple[list[Violation], dict]:
 		nres += list(ex.map(_check_lists, [LIST_CASES[i::16] for i in range(16)]))
 		roles = load_roles()
 		nres += list(ex.map(_check_roles, [roles[i::16] for i in range(16)]))
+		if len(NUMBER_CASES) < 60:
+			raise Machinery(f'PyRoles emitted {len(NUMBER_CASES)} number cases')
+		nres += list(ex.map(_check_numbers, [NUMBER_CASES[i::8] for i in range(8)]))
 	machinery = [m for r in nres for m in r['machinery']]
 	if machinery:
 		raise Machinery(f'{len(machinery)} definition nestings, e.g. {machinery[0]}')
